@@ -29,6 +29,10 @@ prop("C08", "model_checking",
      "differential exhaustive enumeration: every pair of reachable states x parameter setting reconciled on in-memory redb, file-backed redb and an ordered-map reference backend driven by the crate's own algorithm (byte-identical transcripts), plus every range of an identifier lattice against the set-theoretic definitions of the storage primitives",
      "Relational check on the real code: the same sessions on three backends must produce byte-identical serialized protocol messages and final sets; every storage primitive of StoreInstance is compared with its ordered-map definition on every reachable state and every (x,y) of a 24-point lattice including wrap-around and x=y.",
      "Bounded states (<=3 offered entries, plus a 7..9-entry family); ranges inside the document's namespace; the reference backend is the definition (ascending identifier order), as in the crate's own test stand-in.")
+prop("C10", "fault_enumeration",
+     "exhaustive enumeration of peer scripts (every sequence of <=3/4 steps over a menu of correct and hostile frames) against the real acceptor and the real initiator over in-memory streams, plus every placement of one local fault (close / disable sync / actor shutdown) before each protocol step of real-vs-real sessions",
+     "BobState::run and run_alice are driven over duplex streams by a scripted peer that owns a real replica (so 'correct next frame' is always available) and deviates at every step in every way of the menu; a frame relay injects one local fault before every incoming frame on either side. Both ends must return within the deadline without panic, into_outcome() must be callable after every outcome, a declined request leaves the store unchanged, and counters mirror on success.",
+     "In-memory duplex transport; deadlines only as hang detectors with a 10x re-run.")
 prop("C13", "model_checking",
      "exhaustive enumeration of all operation sequences up to a depth (inserts of a two-author universe, document removal and re-creation) on the real store against reference heads, plus exhaustive enumeration of small author-head sets x all size limits for the codec",
      "Heads and has_news_for_us are compared with the reference replica after every history of <=3 (quick) / <=4 (thorough) steps for all 16 peer reports; AuthorHeads::encode/decode is checked on all 2401 head sets of <=4 authors over 6 varint-edge timestamps (ties included) under every size limit.",
